@@ -320,7 +320,10 @@ impl SubCheck for Routing {
 		let rt = rt();
 		crate::panics::clear_local();
 		rt.block_on(async {
-			let mut w = World::new(ClientCfg { id_kind: case.id_kind, ..ClientCfg::default() });
+			let mut w = World::new(ClientCfg { id_kind: case.id_kind, mw_last: case.send_yields == 3, ..ClientCfg::default() });
+			if case.send_yields == 3 {
+				obs.class("client-built-through-set_rpc_middleware");
+			}
 			*w.mc.shared.default_send_yields.lock() = case.send_yields;
 			let mut nonfifo = false;
 			let mut interleaved = false;
@@ -478,6 +481,20 @@ impl SubCheck for Routing {
 				obs.nontrivial();
 			}
 			let connected = w.mc.client.is_connected();
+			// every id the client wrote has the configured kind
+			for m in &w.wire {
+				let ids: Vec<&Value> = match m {
+					Value::Array(a) => a.iter().filter_map(|e| e.get("id")).collect(),
+					v => v.get("id").into_iter().collect(),
+				};
+				for id in ids {
+					let ok = match case.id_kind {
+						IdK::Number => id.is_u64(),
+						IdK::String => id.is_string(),
+					};
+					obs.check(ok, "c03/request-id-not-of-the-configured-kind", || format!("{id} with id kind {:?}; wire={:?}", case.id_kind, w.wire));
+				}
+			}
 			for (i, (op, out)) in w.ops.iter().zip(outs.iter()).enumerate() {
 				let desc = || format!("op#{i} {:?} methods={:?} wire_ids={:?} stamped={:?} outcome={out:?} poisoned={} connected={connected} steps={:?} wire={:?} events={:?}", op.kind, op.methods, op.wire_ids, op.stamped, w.poisoned, case.steps, w.wire, w.mc.shared.events.lock());
 				if op.abandoned {
@@ -540,7 +557,7 @@ impl SubCheck for Routing {
 
 pub fn check(ctx: &mut Ctx) {
 	ctx.rule = "histories of front-end operations {call, subscribe, batch(1..4), notification} interleaved with mock-server steps {answer any outstanding request with a nonce-stamped result/error, answer a batch in any permutation, \
-		push subscription / plain notifications singly or packed in arrays, answer an id nobody waits for, answer an id twice, the application abandoning an outstanding request (dropped future, as a time-out does) that may still be answered later}, settle-or-not after each step, send() yielding 0..3 times, id kind number/string. \
+		push subscription / plain notifications singly or packed in arrays, answer an id nobody waits for, answer an id twice, the application abandoning an outstanding request (dropped future, as a time-out does) that may still be answered later}, settle-or-not after each step, send() yielding 0..3 times, id kind number/string (a quarter of the clients are finished with `.set_rpc_middleware(identity)` after the options were set; every id on the wire must have the configured kind). \
 		Oracle: every completed call/subscribe/batch returns exactly the payload stamped for its own wire id (found via its unique method name), unanswered ones stay pending while connected, nothing completes with a payload after a response that matches nothing pending; pending wire ids pairwise distinct. \
 		Non-trivial = >= 2 requests outstanding at once and answered out of FIFO order or with a notification/batch reply in between; distinct by case value."
 		.into();
